@@ -145,7 +145,12 @@ def make_scenario(seed, i):
             ops.append({"op": "register", "name": name, "style": style, "arity": ar, "rows": rows,
                         "first_only": rng.random() < 0.3})
         elif r < 0.62:
-            ops.append({"op": "load", "clauses": _script(rng, names, names), "overwrite": rng.random() < 0.5})
+            earlier = [o for o in ops if o["op"] == "load"]
+            if earlier and rng.random() < 0.3:
+                # the same script text again (same clauses at the same source lines), e.g. re-loading after an overwrite load
+                ops.append({"op": "load", "clauses": rng.choice(earlier)["clauses"], "overwrite": rng.random() < 0.35})
+            else:
+                ops.append({"op": "load", "clauses": _script(rng, names, names), "overwrite": rng.random() < 0.5})
         elif r < 0.72:
             ops.append({"op": "badload", "kind": rng.choice(["syntax", "zerodiv", "nameerror", "truncated"]),
                         "clauses": _script(rng, names, names), "overwrite": rng.random() < 0.5})
